@@ -757,6 +757,8 @@ value_t report_t::fn_quoted(call_scope_t& args)
   foreach (const char ch, arg) {
     if (ch == '"')
       out << "\\\"";
+    else if (ch == '\\')
+      out << "\\\\";
     else
       out << ch;
   }
